@@ -581,8 +581,8 @@ Proof. intros E. unfold has_gen. rewrite E. tauto. Qed.
 
 Ltac tck_ok OKK k := let th' := fresh in let E := fresh in
   intros th' E; first [ discriminate E
-  | inv E; eapply tck_ok_sub with (k := k);
-    [ corep; prw; reflexivity | corep; prw; reflexivity | exact OKK
+  | inv E; refine (tck_ok_sub _ _ k _ _ _ OKK _);
+    [ corep; prw; reflexivity | corep; prw; reflexivity
     | cbn; intros ?p; repeat match goal with H : t_todo k = _ |- _ => rewrite H end; cbn; intuition ] ].
 Ltac tck_keep EPC := let c := fresh in let X := fresh in let g := fresh in let IN := fresh in let NG := fresh in
   intros c X _; cbn in X; rewrite EPC in X; destruct X as (g & IN & NG);
@@ -608,8 +608,22 @@ Proof.
     destruct (t_todo k) as [|c r] eqn:ET0; [|destruct (closing s); [|destruct (lookup (fst c) (chans s))]];
       inv H; (pplain PI ET FR s; [tck_ok OKK k|tck_keep EPC]).
   - (* TAdd *)
-    destruct (t_todo k) as [|c r] eqn:ET0; inv H; [pplain PI ET FR s; [tck_ok OKK k|tck_keep EPC]|].
-    admit.
+    destruct (t_todo k) as [|c r] eqn:ET0; [inv H; pplain PI ET FR s; [tck_ok OKK k|tck_keep EPC]|].
+    destruct b; inv H; [|pplain PI ET FR s; [tck_ok OKK k|tck_keep EPC]].
+    assert (IC : item_ok s c) by (apply OKK; left; rewrite ET0; left; auto).
+    eapply P_step with (t := t) (nt := 0) (x := new_close);
+      [ exact PI | exact ET | left; corep; reflexivity | apply cs_same; corep; reflexivity
+      | corep; apply PI | corep; lia | tck_ok OKK k | | | ].
+    + intros c0 PR. corep. unfold upd in PR. destruct (N.eqb_spec c0 (fst c)) as [EQ|NE]; [subst c0|left; exact PR].
+      right. destruct IC as [_ IC].
+      destruct (lookup (fst c) (chans s)) as [x|] eqn:L; [destruct (N.eqb_spec (c_gen x) (snd c)) as [EGX|NG]|].
+      * left. exists x. corep. destruct (IC x eq_refl EGX). auto.
+      * right. eexists. split; [reflexivity|]. cbn. exists (snd c). split; [left; destruct c; reflexivity|].
+        intros (x' & L' & G'). corep. congruence.
+      * right. eexists. split; [reflexivity|]. cbn. exists (snd c). split; [left; destruct c; reflexivity|].
+        intros (x' & L' & G'). corep. congruence.
+    + intros c0 LV _. left. eapply live_same; [|exact LV]. corep. reflexivity.
+    + intros c0 X PR. right. revert c0 X PR. tck_keep EPC.
   - (* TComp *)
     inv H. pplain PI ET FR s; [tck_ok OKK k|].
     intros c X _. cbn in X. rewrite EPC in X. destruct X as (g & IN & NG).
@@ -621,4 +635,157 @@ Proof.
       * exfalso. corep. rewrite upd_same in PR. discriminate PR.
       * eexists. split; [reflexivity|]. cbn. auto.
   - (* TEnd *) inv H. pplain PI ET FR s; [tck_ok OKK k|own_none EPC].
-Admitted.
+Qed.
+
+(* ---- the other threads ---- *)
+Lemma cls_ok_keep s s' k k' :
+  chans s' = chans s -> genctr s' = genctr s -> pthread_ok s (TCls k) ->
+  (k_cur k' = k_cur k \/ k_cur k' = None \/ exists c, k_cur k' = Some (new_u c USnap)) ->
+  pthread_ok s' (TCls k').
+Proof.
+  intros EC EG OK [E|[E|(c & E)]]; cbn; rewrite E; auto.
+  - apply (pthread_ok_eq s s' (TCls k)); auto.
+  - intros X. discriminate X.
+Qed.
+
+Ltac cls_ok OKK k := let th' := fresh in let E := fresh in
+  intros th' E; first [ discriminate E
+  | inv E; refine (cls_ok_keep _ _ k _ _ _ OKK _);
+    [ corep; prw; reflexivity | corep; prw; reflexivity
+    | cbn; first [left; reflexivity | right; left; reflexivity | right; right; eexists; reflexivity] ] ].
+Ltac cls_none EPC := let c := fresh in let X := fresh in
+  intros c X; cbn in X; rewrite EPC in X; exfalso; destruct X as [X _]; discriminate X.
+
+Lemma cls_step_P s t k b s' :
+  Inv s -> PInv s -> thr s t = Some (TCls k) -> cls_step s t k b = Some s' -> PInv s'.
+Proof.
+  intros I PI ET H. unfold cls_step in H.
+  assert (FR : thr s (2 * next_int s + 1) = None) by (eapply fresh_int; eauto).
+  pose proof (p_thr _ PI _ _ ET) as OKK.
+  destruct (k_pc k) eqn:EPC.
+  8:{ (* CLoop *)
+    destruct (k_cur k) as [u|] eqn:EC.
+    - destruct (u_step s t u b) as [[s1 ou]|] eqn:EU; [|discriminate]. inv H.
+      eapply (u_step_P _ s t u b s1 ou (pemb_cls (k_prev k) (k_rest k)) (emb_cls (k_prev k) (k_rest k)) I PI);
+        [|exact EU|corep; reflexivity..].
+      rewrite ET. f_equal. f_equal. destruct k; cbn in *. congruence.
+    - destruct (k_rest k); [|destruct b]; inv H;
+        (pplain PI ET FR s; [cls_ok OKK k|]);
+        intros c0 X; cbn in X; rewrite EC in X; destruct X as (_ & u0 & X & _); discriminate X. }
+  all: repeat match type of H with
+       | (if ?c then _ else _) = _ => destruct c eqn:?
+       end; try discriminate; inv H;
+       repeat (match goal with |- context [if ?x then _ else _] => destruct x eqn:? end);
+       (pplain PI ET FR s; [cls_ok OKK k|cls_none EPC]).
+Qed.
+
+Ltac triv_ok := let th' := fresh in let E := fresh in
+  intros th' E; first [discriminate E | inv E; exact Logic.I].
+Ltac triv_none := let c := fresh in let X := fresh in intros c X; cbn in X; exfalso; exact X.
+
+Lemma con_step_P s t pc b s' :
+  Inv s -> PInv s -> thr s t = Some (TCon pc) -> con_step s t pc b = Some s' -> PInv s'.
+Proof.
+  intros I PI ET H. unfold con_step in H.
+  assert (FR : thr s (2 * next_int s + 1) = None) by (eapply fresh_int; eauto).
+  destruct pc;
+    repeat match type of H with
+    | (if ?c then _ else _) = _ => destruct c eqn:?
+    end; try discriminate; inv H;
+    repeat (match goal with |- context [if ?x then _ else _] => destruct x eqn:? end);
+    (pplain PI ET FR s; [triv_ok|triv_none]).
+Qed.
+
+Lemma job_step_P s t c b s' :
+  Inv s -> PInv s -> thr s t = Some (TJob c) -> job_step s t c b = Some s' -> PInv s'.
+Proof.
+  intros I PI ET H. unfold job_step in H.
+  assert (FR : thr s (2 * next_int s + 1) = None) by (eapply fresh_int; eauto).
+  destruct b; inv H; (pplain PI ET FR s; [triv_ok|triv_none]).
+Qed.
+
+Lemma step_thread_P s t b s' : Inv s -> PInv s -> step_thread s t b = Some s' -> PInv s'.
+Proof.
+  intros I PI H. unfold step_thread in H. destruct (thr s t) as [[a|u|k|k|pc|c]|] eqn:ET; try discriminate.
+  - eapply att_step_P; eauto.
+  - destruct (u_step s t u b) as [[s1 [u'|]]|] eqn:EU; inv H;
+      (eapply (u_step_P _ s t u b _ _ pemb_uns emb_uns I PI ET EU); corep; reflexivity).
+  - eapply cls_step_P; eauto.
+  - eapply tck_step_P; eauto.
+  - eapply con_step_P; eauto.
+  - eapply job_step_P; eauto.
+Qed.
+
+(* an action of no running thread: at most a new thread appears *)
+Lemma P_frame s s' :
+  PInv s -> chans s' = chans s -> genctr s <= genctr s' -> pres s' = pres s ->
+  (thr s' = thr s \/ exists nt x, thr s' = upd (thr s) nt (Some x) /\ thr s nt = None /\ pthread_ok s' x) ->
+  PInv s'.
+Proof.
+  intros [P1 P2 P3] EC GE EP TH.
+  assert (CS : chans_step s s') by (apply cs_same; auto).
+  assert (OTH : forall t0 th0, thr s t0 = Some th0 -> thr s' t0 = Some th0).
+  { intros t0 th0 E0. destruct TH as [-> |(nt & x & -> & FR & _)]; auto.
+    rewrite upd_other; auto. intros ->. congruence. }
+  constructor.
+  - intros c X. rewrite EP in X. destruct (P1 c X) as [L|(t0 & th0 & E0 & O0)].
+    + left. eapply live_same; eauto.
+    + right. exists t0, th0. split; auto. eapply pown_step; eauto.
+  - intros t0 th0 E0. destruct TH as [E|(nt & x & E & FR & OKX)]; rewrite E in E0.
+    + eapply pthread_ok_step; eauto.
+    + unfold upd in E0. destruct (N.eqb_spec t0 nt); [inv E0; auto|eapply pthread_ok_step; eauto].
+  - rewrite EC. auto.
+Qed.
+
+Lemma spawn_P s o s' : Inv s -> PInv s -> spawn s o = Some s' -> PInv s'.
+Proof.
+  intros I PI H. unfold spawn in H.
+  assert (FRE : thr s (2 * next_ext s) = None) by (eapply fresh_ext; eauto).
+  assert (FR : thr s (2 * next_int s + 1) = None) by (eapply fresh_int; eauto).
+  destruct o;
+    repeat match type of H with
+    | (if ?c then _ else _) = _ => destruct c eqn:?
+    end; try discriminate; inv H;
+    repeat (match goal with |- context [if ?x then _ else _] => destruct x eqn:? end);
+    (eapply P_frame; [exact PI|corep; reflexivity|corep; lia|corep; reflexivity|]);
+    first [ left; corep; reflexivity
+          | right; eexists; eexists; split; [corep; reflexivity|split; [first [exact FRE|exact FR]|]];
+            cbn; try (intros X; discriminate X); try (intros p [[]|[]]); auto ].
+Qed.
+
+Lemma astep_P s l s' : Inv s -> PInv s -> is_timeout l = false -> astep s l = Some s' -> PInv s'.
+Proof.
+  intros I PI NT H. destruct l; cbn in *; try discriminate.
+  - eapply spawn_P; eauto.
+  - eapply step_thread_P; eauto.
+  - unfold job_start in H. destruct (mem c (jobs s) && negb (slock s c)); [|discriminate].
+    destruct (subscribers s c); inv H;
+      (eapply P_frame; [exact PI|corep; reflexivity|corep; lia|corep; reflexivity|]).
+    + left. corep. reflexivity.
+    + right. eexists. eexists. split; [corep; reflexivity|split; [eapply fresh_int; eauto|exact Logic.I]].
+  - unfold other_add in H. destruct (slock s c); [discriminate|].
+    destruct (subscribers s c); [|destruct b]; inv H;
+      (eapply P_frame; [exact PI|corep; reflexivity|corep; lia|corep; reflexivity|left; corep; reflexivity]).
+  - unfold other_rem in H. destruct (slock s c || (others s c =? 0)); [discriminate|].
+    destruct ((others s c =? 1) && match hub s c with None => true | Some _ => false end); inv H;
+      (eapply P_frame; [exact PI|corep; reflexivity|corep; lia|corep; reflexivity|left; corep; reflexivity]).
+Qed.
+
+Theorem exec_P l : forall s s', Inv s -> PInv s -> no_timeout l = true -> exec l s = Some s' -> PInv s'.
+Proof.
+  induction l as [|x l IH]; intros s s' I PI NT H; cbn in *.
+  - inv H. auto.
+  - apply andb_true_iff in NT. destruct NT as [NX NT]. apply negb_true_iff in NX.
+    destruct (astep s x) as [s1|] eqn:E; [|discriminate].
+    eapply IH; [eapply astep_inv; eauto|eapply astep_P; eauto|auto|eauto].
+Qed.
+
+(* the presence set at rest: only what a subscription with presence accounts for *)
+Theorem presence_settled sched s c :
+  no_timeout sched = true -> exec sched init = Some s -> settled s ->
+  pres s c = true -> live_pres s c.
+Proof.
+  intros NT EX ST PR.
+  pose proof (exec_P _ _ _ Inv_init PInv_init NT EX) as PI.
+  destruct (p_own _ PI c PR) as [L|(t & th & E & _)]; auto. rewrite ST in E. discriminate.
+Qed.
